@@ -30,8 +30,10 @@ ASSUMPTIONS = ['the plain Python list of added values (and bisect on it) is the 
                'float sequences are finite floats (no NaN/inf) and not mixed with ints',
                'RLE conversion function (theFunc) is None in the model (production callers never pass one)']
 TRUSTED = ['modelled, not verified: Python int arithmetic, // and % (Int.fdiv / Int.fmod), list append/indexing',
-           'float rounding in RLEItem.add/value/values is not modelled: Rat abstraction with isclose as a parameter; '
-           'exercised by the oracle with the bound |decoded - added| <= (2k+4)*eps*max|x|']
+           'float rounding in RLEItem.add/value/values is not modelled: Rat abstraction with isclose as a parameter, compared '
+           'item for item with the code on exactly representable floats (multiples of 1/1024 below 2**43, incl. values '
+           'near 2**42 where isclose accepts unequal values); general floats are exercised by the oracle with the bound '
+           '|value(i) - added| <= 4*eps*max|x| and |values()[k] - added| <= (2k+4)*eps*max|x|']
 
 EPS = sys.float_info.epsilon
 
@@ -75,6 +77,37 @@ def impl_rle(R, xs, idx, qs):
                 f'vals={_csv(list(rle.values()))} at={at} le={le}')
     except Exception as e:   # anything unexpected is a correspondence difference, never a crash of the check
         return f'exception {type(e).__name__}'
+
+
+def _units(v):
+    from fractions import Fraction
+    f = Fraction(v) * 1024
+    return str(f.numerator) if f.denominator == 1 else f'{f.numerator}/{f.denominator}'
+
+
+def impl_frle(R, ns):
+    """floats that are integer multiples of 1/1024 below 2**43: every float operation of RLEItem is exact on them."""
+    try:
+        rle = R.create_rle([n / 1024.0 for n in ns])
+        items = ';'.join(f'{_units(it.datum)}:{_units(it.stride)}:{it.repeat}' for it in rle.rle_items) or '-'
+        return f'items={items} n={rle.num_values()} vals={",".join(_units(v) for v in rle.values()) or "-"}'
+    except Exception as e:
+        return f'exception {type(e).__name__}'
+
+
+def gen_units(rng, target):
+    """integers n (floats n/1024): small ones, and ones near 2**52..2**53 where isclose accepts differences of 1-2 units."""
+    big = rng.random() < 0.6
+    cur = rng.randint(2**52, 2**53 - 2**24) * rng.choice([1, 1, -1]) if big else rng.randint(-2**30, 2**30)
+    ns = []
+    while len(ns) < target:
+        ln = rng.choice([1, 2, 3, 4, 6, rng.randint(1, 30)])
+        st = rng.choice([0, 1, -1, 2, 512, 1024, -1536, rng.randint(-5000, 5000)])
+        cur += rng.choice([0, 0, st, rng.randint(-3, 3), rng.randint(-10**6, 10**6)])
+        for k in range(ln):
+            ns.append(cur + k * st + (rng.choice([0, 0, 0, 1, -1, 2, -2, 3]) if k >= 2 else 0))
+        cur = ns[-1]
+    return ns[:target]
 
 
 def impl_t01(L, recs, frames):
@@ -394,6 +427,20 @@ def run(ctx):
             if nr < len(xs) - 1:
                 nf_abs += 1
     ctx.count('float_lists_with_absorbed_values', nf_abs)
+    # exactly representable floats: the Rat model with the exact isclose predicate must agree item for item
+    fcases = [gen_units(rng, rng.choice([rng.randint(0, 8), rng.randint(8, 80)])) for _ in range(ctx.n(1500, 20000))]
+    for k in range(0, 5):                      # exhaustive tiny: near 2**52 over offsets 0..3 (isclose tolerance = 1 unit)
+        for offs in itertools.product(range(4), repeat=k):
+            fcases.append([2**52 + 10 * j + o for j, o in enumerate(offs)])
+    model = ctx.lean([f'frle {_csv(ns)}' for ns in fcases])
+    nclose = 0
+    for ns, m in zip(fcases, model):
+        out = impl_frle(R, ns)
+        ctx.corr('frle', {'op': 'frle', 'units_of_1_1024': ns[:40]}, out, m)
+        if out.split(' vals=')[-1] != _csv(ns):
+            nclose += 1                          # some value was absorbed through isclose without being equal
+    ctx.count('frle_cases', len(fcases)); ctx.count('frle_cases_with_inexact_absorption', nclose)
+    ctx.sample({'op': 'frle', 'units_of_1_1024': fcases[3][:12], 'model_reply': model[3][:300]})
     # ---------------- LIS RLEType01
     tcases = []
     for _ in range(ctx.n(1500, 20000)):
